@@ -15,6 +15,7 @@ import XV.Lemmas.Codec
 import XV.Lemmas.Ws
 import XV.Lemmas.DateTime
 import XV.Lemmas.Facets
+import XV.Lemmas.Duration
 namespace XV.Props.C09
 open XV.Spec.Decimal XV.Model.Decimal XV.Lemmas.Decimal
 
@@ -697,6 +698,82 @@ theorem union_iff (members : List (List Nat → Bool)) (s : List Nat) :
 
 end Facets
 
+/-! ## xs:duration (XMLDateTime::parseDuration, addDuration, compare(…, strict))
+
+Spec (XV.Spec.Duration): lexical space of §3.2.6.1, value (months, seconds), the partial order of §3.2.6.2 through the
+four reference dateTimes.  Model (XV.Model.Duration, code-shaped): parseDuration on the buffer indices, addDuration for
+DATETIMES[0..3], compareResult, compare. -/
+section Duration
+open XV.Model.DateTime XV.Model.Duration XV.Spec.DateTime XV.Spec.Duration XV.Lemmas.Duration
+
+/-- `compare(a, b, strict)` is determinate exactly when the four reference comparisons agree, and then it is their
+common value; as soon as two of them differ it is INDETERMINATE — all four reference dateTimes are consulted. -/
+theorem duration_indeterminate_iff (p1 p2 : DT) (h : compareOrder p1 p2 ≠ 0) :
+    compareDur p1 p2 true =
+      (if compareOrder (addDuration p1 0) (addDuration p2 0) = compareOrder (addDuration p1 1) (addDuration p2 1) ∧
+          compareOrder (addDuration p1 1) (addDuration p2 1) = compareOrder (addDuration p1 2) (addDuration p2 2) ∧
+          compareOrder (addDuration p1 2) (addDuration p2 2) = compareOrder (addDuration p1 3) (addDuration p2 3)
+       then compareOrder (addDuration p1 0) (addDuration p2 0) else INDETERMINATE) := by
+  rw [compareDur_eq_chain]
+  have : (compareOrder p1 p2 == 0) = false := by simpa using h
+  rw [this]
+  simp only [Bool.false_eq_true, if_false]
+  exact chain_table _ (compareOrder_tri _ _) _ (compareOrder_tri _ _) _ (compareOrder_tri _ _) _ (compareOrder_tri _ _)
+
+/-- §3.2.6.2 is a strict partial order (durations without fractional seconds): irreflexive, asymmetric, transitive. -/
+theorem duration_order_strict_partial (a b c : Dur) (ha : a.frac = []) (hb : b.frac = []) (hc : c.frac = []) :
+    durOrder a a ≠ .lt ∧ (durOrder a b = .lt → durOrder b a ≠ .lt) ∧
+    (durOrder a b = .lt → durOrder b c = .lt → durOrder a c = .lt) := by
+  rw [durOrder_lt_iff a b ha hb, durOrder_lt_iff b c hb hc, durOrder_lt_iff a c ha hc]
+  refine ⟨?_, ?_, ?_⟩
+  · intro h; rw [durOrder_lt_iff a a ha ha] at h
+    have := h (1696, 9) (by simp [refs]); omega
+  · intro h h'; rw [durOrder_lt_iff b a hb ha] at h'
+    have x := h (1696, 9) (by simp [refs]); have y := h' (1696, 9) (by simp [refs]); omega
+  · intro h h' r hr
+    have x := h r hr; have y := h' r hr; omega
+
+/-- Full statement: for all durations within the no-wrap ranges, `compare(a, b, strict)` = the order of §3.2.6.2.
+Checked here by kernel evaluation on the whole boundary family: n months (n = 0..14) against d days for every d from
+28·n to 31·n+2 — every length an n-month span can have at any of the four reference dates, and one beyond either
+side — in both argument orders, and against the same spans in hours. -/
+theorem duration_compare_sweep_partial :
+    (∀ n, n < 15 → ∀ k, k < 3 * n + 3 →
+      compareDur (monthsDT n) (daysDT (28 * n + k)) true = ord4Code (durOrder (monthsD n) (daysD (28 * n + k))) ∧
+      compareDur (daysDT (28 * n + k)) (monthsDT n) true = ord4Code (durOrder (daysD (28 * n + k)) (monthsD n))) ∧
+    (∀ n, n < 8 → ∀ k, k < 3 * n + 3 →
+      compareDur (monthsDT n) (hoursDT (24 * (28 * n + k))) true = ord4Code (durOrder (monthsD n) (hoursD (24 * (28 * n + k))))) := by
+  decide +kernel
+
+/-- Full statement: `parseDuration s` succeeds iff `s` is in the lexical space, and then holds its value.  Checked here
+by kernel evaluation on EVERY string of length ≤ 4 over {P T 1 Y M D H S . -} (11 111 strings); longer strings are
+covered by the correspondence only. -/
+theorem duration_lexical_partial :
+    (stringsUpTo [0x50, 0x54, 0x31, 0x59, 0x4D, 0x44, 0x48, 0x53, 0x2E, 0x2D] 4).all (fun s =>
+      match parseDuration true s, parse s with
+      | none, none => true
+      | some d, some v => d.year * 12 + d.month == monthsOf v &&
+          ((d.day * 24 + d.hour) * 60 + d.minute) * 60 + d.second == secondsOf v && d.ms == v.frac
+      | _, _ => false) = true := by
+  decide +kernel
+
+/-- The code as it stands accepts a designator without digits ("PY", "PT.5S" …): `parseInt` of an empty range is 0. -/
+theorem duration_lexical_orig_fails :
+    (parseDuration false [0x50, 0x59]).isSome = true ∧ parse [0x50, 0x59] = none ∧
+    (parseDuration false [0x50, 0x54, 0x2E, 0x35, 0x53]).isSome = true ∧ parse [0x50, 0x54, 0x2E, 0x35, 0x53] = none ∧
+    parseDuration true [0x50, 0x59] = none := by decide +kernel
+
+/-- The shortcut `compareOrder(pDate1, pDate2) == EQUAL` at the head of `compare(…, strict)` normalises the duration
+fields as if they were a date: -P1M and -P30D both become (-1, 10, 31) and the code answers EQUAL, while the order of
+§3.2.6.2 leaves them incomparable (hence the hypothesis of `duration_indeterminate_iff`). -/
+theorem duration_compare_shortcut_fails :
+    ((parseDuration true [0x2D, 0x50, 0x31, 0x4D]).bind fun a => (parseDuration true [0x2D, 0x50, 0x33, 0x30, 0x44]).map fun b =>
+        (compareOrder a b, compareDur a b true)) = some (0, 0) ∧
+    ((parse [0x2D, 0x50, 0x31, 0x4D]).bind fun a => (parse [0x2D, 0x50, 0x33, 0x30, 0x44]).map fun b =>
+        ord4Code (durOrder a b)) = some 2 := by decide +kernel
+
+end Duration
+
 /-! ## Non-vacuity: the hypotheses are met by concrete non-trivial data. -/
 section NonVacuity
 open XV.Spec.Codec XV.Model.Codec
@@ -781,6 +858,13 @@ example :
 example : XV.Model.Facets.unionCheck [fun s => s == [1], fun s => s.length == 1, fun _ => true] [2] = some 1 ∧
     XV.Model.Facets.listCheck (fun s => s.length == 1) { maxLength := some 2 } [[1], [2]] = true ∧
     XV.Model.Facets.listCheck (fun s => s.length == 1) { maxLength := some 2 } [[1], [2], [3]] = false := by decide
+
+-- duration: P2M against P62D is indeterminate (62 days only from 1903-07-01), P2M < P63D, P1M > P27D
+example : XV.Spec.Duration.durOrder (XV.Lemmas.Duration.monthsD 2) (XV.Lemmas.Duration.daysD 62) = .indeterminate ∧
+    XV.Spec.Duration.durOrder (XV.Lemmas.Duration.monthsD 2) (XV.Lemmas.Duration.daysD 63) = .lt ∧
+    XV.Spec.Duration.durOrder (XV.Lemmas.Duration.monthsD 1) (XV.Lemmas.Duration.daysD 27) = .gt ∧
+    XV.Model.Duration.compareDur (XV.Lemmas.Duration.monthsDT 2) (XV.Lemmas.Duration.daysDT 62) true = 2 ∧
+    XV.Model.DateTime.compareOrder (XV.Lemmas.Duration.monthsDT 2) (XV.Lemmas.Duration.daysDT 62) ≠ 0 := by decide +kernel
 
 end NonVacuity
 
